@@ -511,7 +511,7 @@ func firstLine(s string) string {
 func oneLine(s string, n int) string {
 	s = strings.ReplaceAll(s, "\n", "⏎")
 	if len(s) > n {
-		s = s[:n] + "…"
+		s = strings.ToValidUTF8(s[:n], "") + "…"
 	}
 	return s
 }
